@@ -223,3 +223,15 @@ class NamespaceHashClient(_NamespaceMixin, HashClient):
 
 
 CLIENT_CLASSES["namespace"] = NamespaceClient
+
+
+class LateNoreplyClient(Client):
+    """decides about default_noreply after the base constructor has run (a subclass that reads its options from elsewhere):
+    the public attribute is what counts"""
+
+    def __init__(self, *a, **k):
+        super().__init__(*a, **k)
+        self.default_noreply = not self.default_noreply
+
+
+CLIENT_CLASSES["late-noreply"] = LateNoreplyClient
